@@ -249,7 +249,7 @@ func (obj SparseConstInt64Vector) ITERATOR() *SparseConstInt64VectorIterator {
   return &r
 }
 func (obj SparseConstInt64Vector) ITERATOR_FROM(i int) *SparseConstInt64VectorIterator {
-  k := 0
+  k := len(obj.indices)
   for j, idx := range obj.indices {
     if idx >= i {
       k = j
